@@ -317,6 +317,34 @@ def run_check(pid, tier, seed, only_key=None):
         stats = extra
     else:
         vs, ob, dis, samples, stats = e2_collect(pid, facts, merged)
+    # E4: compile-fail witnesses (both tiers: they cost well under a second)
+    if True:
+        from . import witness
+        mine = sorted(w for w, ps in witness.SERVES.items() if pid in ps)
+        if mine:
+            tw = time.time()
+            res, wlog = witness.run(cli.REPO)
+            got = {}
+            for r in res:
+                got[(r['witness'], r['kind'])] = r['ok']
+            wsamples = []
+            for w in mine:
+                for kind in ('compile_fail', 'twin'):
+                    ob += 1
+                    ok = got.get((w, kind))
+                    if ok:
+                        dis += 1
+                        wsamples.append('%s %s: as expected' % (w, kind))
+                        continue
+                    what = ('the witness %s was not reported by rustdoc' % w) if ok is None else (
+                        'the program that must NOT type-check compiles (or fails with another error)' if kind == 'compile_fail'
+                        else 'the twin program that differs only in the offending line does not compile: the witness is void')
+                    v = graph.V('WITNESS', 'refuted' if ok is False else 'unproven', 'witness/lib.rs', '%s:%s' % (w, kind),
+                                what + '; rustdoc tail: ' + wlog[-400:], None, 'witness')
+                    v['props'] = [pid]
+                    vs.append(v)
+            if isinstance(stats, dict):
+                stats['witnesses'] = {'run': mine, 'wall_s': round(time.time() - tw, 1), 'results': wsamples}
     # de-duplicate across configurations by key
     seen = {}
     for v in vs:
